@@ -1285,6 +1285,8 @@ class Interp:
             raise Gap("overloaded logical operator")
         a0 = self.expr(argn[0])
         rest = [self.expr(a) for a in argn[1:]]
+        if opname == "operator+" and "basic_string" in strip_type(desugared(n)) + strip_type(type_of(n)):
+            return self.ctx.fresh("str_concat")  # message text: an opaque string
         return self.operator_call(opname, a0, rest, n)
 
     def operator_call(self, opname, a0, rest, n):
@@ -1373,15 +1375,17 @@ class Interp:
             else:
                 raise Gap("-> call on %r (line %s)" % (base, extract.line_of(n)))
         obj = base
+        base_loc = None
         if isinstance(obj, Loc):
+            base_loc = obj
             lv = ctx.load(obj)
             # conversion operators etc. on stored value objects
             if not isinstance(lv, z3.ExprRef):
                 obj = lv
         args = [self.expr(a) for a in ks[1:]]
-        return self.method_call(obj, name, args, n, callee)
+        return self.method_call(obj, name, args, n, callee, base_loc)
 
-    def method_call(self, obj, name, args, n, callee=None):
+    def method_call(self, obj, name, args, n, callee=None, base_loc=None):
         ctx = self.ctx
         # 1. contract table
         h = self.k.method_handler(obj, name, n)
@@ -1413,9 +1417,11 @@ class Interp:
                 if not ctx.decide(v.has, "optional.value"):
                     self.throw_from_callee("optional::value", cls="std::bad_optional_access")
                 return v.value
-            if name == "reset" and isinstance(obj, Loc):
-                ctx.write(obj, Opt(z3.BoolVal(False), v.value))
+            if name == "reset" and (isinstance(obj, Loc) or base_loc is not None):
+                ctx.write(obj if isinstance(obj, Loc) else base_loc, Opt(z3.BoolVal(False), v.value))
                 return VOID
+            if name == "value_or":
+                return z3.If(v.has, v.value, ctx.rv(args[0])) if isinstance(v.value, z3.ExprRef) else None
         raise Gap("unclassified method %s on %r (line %s)" % (name, obj, extract.line_of(n)))
 
     def e_CallExpr(self, n):
@@ -1486,6 +1492,16 @@ class Interp:
         ctx = self.ctx
         for p, a in zip(params, args):
             qt = type_of(p)
+            if a is DEFAULT_ARG:
+                # clang prints the call-site CXXDefaultArgExpr without its expression: take it from the parameter
+                init = [c for c in kids(p) if c.get("kind", "").endswith(("Expr", "Literal", "Operator"))]
+                if not init:
+                    raise Gap("default argument of %s has no printed expression" % p.get("name"))
+                ctx.frames.append(fr)
+                try:
+                    a = ctx.rv(self.expr(init[0]))
+                finally:
+                    ctx.frames.pop()
             if qt.rstrip().endswith("&"):
                 if isinstance(a, Loc) or not isinstance(a, (z3.ExprRef,)):
                     fr.vars[p["id"]] = a
@@ -1558,8 +1574,11 @@ class Interp:
         if not m:
             return False
         p = m.group(1).strip()
+        if "," in re.sub(r"<[^<>]*>", "", re.sub(r"<[^<>]*>", "", p)):
+            return False
         p = strip_type(p.rstrip("&").rstrip("&").strip())
-        return p == qt or p.split("<")[0] == qt.split("<")[0] and ("&&" in ct or "const" in ct)
+        last = lambda t: re.sub(r"<.*$", "", t).split("::")[-1]
+        return p == qt or (last(p) == last(qt) and ("&&" in ct or "const" in ct))
 
     e_CXXTemporaryObjectExpr = e_CXXConstructExpr
 
